@@ -58,6 +58,7 @@ OutOfScope(w, op) ==
                                      \/ LET r == TruncRange(w.x, op.left, op.right, op.lr, op.rr) IN r[2] - r[1] < 2
                                      \/ LET r == TruncRange(w.rx, op.left, op.right, op.lr, op.rr) IN r[2] - r[1] < 2)
       [] op.k = "recreate" -> Len(w.x) < 2
+      [] op.k = "poke" -> op.i < 0 \/ op.i >= Len(w.x)
       [] op.k = "smooth" -> Len(w.x) < 5
       [] op.k \in {"interpolate_n", "interpolate_grid"} -> Len(w.x) < 4 \/ (op.k = "interpolate_n" /\ op.n < 2)
       [] OTHER -> FALSE
@@ -120,6 +121,10 @@ Apply(w, op) ==
             IF w.yopaque THEN [w EXCEPT !.reshaped = TRUE]
             ELSE [w EXCEPT !.y = Trend(w.x, w.y, op.c, op.normalized)[2], !.reshaped = TRUE]
       [] op.k \in {"smooth", "noise"} -> [w EXCEPT !.yopaque = TRUE, !.reshaped = TRUE]
+      \* the caller writes into the array get() handed out (the test suite does): the working series is the caller's to
+      \* reshape that way, the reference and the original are not reachable through it
+      [] op.k = "poke" -> IF w.yopaque THEN [w EXCEPT !.reshaped = TRUE]
+                          ELSE [w EXCEPT !.y = [w.y EXCEPT ![op.i + 1] = RAdd(@, op.d)], !.reshaped = TRUE]
       [] OTHER -> w                                        \* read-only operations
 
 \* one call: refused (state unchanged) or applied
